@@ -152,6 +152,36 @@ def compare_reads(stream, model, reqs, res: dict, mech: str, byte_cap: int = 48 
             break
 
 
+def two_readers(first, open_again, model, rng, res: dict, mech: str, rounds: int = 6) -> None:
+    """Two streams obtained from the same container object (open() called twice) are two readers: each keeps its own
+    position. They are read alternately, by position only (one seek each, then plain read(n) calls)."""
+    cnt = res.setdefault("cnt", {})
+    viol = res.setdefault("viol", [])
+    if viol or model.size <= 0:
+        return
+    o = call(open_again)
+    if not o.ok:
+        viol.append({"what": f"opening a second stream on the same object failed: {o.brief()}", "mech": mech, "detail": {"tb": o.tb}})
+        return
+    second = o.value
+    pos = [rng.randrange(0, model.size), rng.randrange(0, model.size)]
+    streams = [first, second]
+    for s_, p_ in zip(streams, pos):
+        s_.seek(p_)
+    for r in range(rounds):
+        for j in (0, 1):
+            n = rng.choice([1, 100, 512, 3000, 9000])
+            got = call(streams[j].read, n)
+            exp = model.expected(pos[j], n)
+            cnt["two_reader_reads"] = cnt.get("two_reader_reads", 0) + 1
+            if not got.ok or got.value != exp:
+                viol.append({"what": "two streams opened on the same object do not keep separate positions", "mech": mech,
+                             "detail": {"reader": j, "round": r, "position": pos[j], "length": n, "outcome": got.brief(),
+                                        "same_object": streams[0] is streams[1]}})
+                return
+            pos[j] += len(exp)
+
+
 def continuation_reads(stream, model, reqs, rng, res: dict, mech: str, n: int = 12) -> None:
     """History-dependent patterns on the same object: read [a, a+n), touch an unrelated place (first visits load
     tables / move the backing handle), then continue exactly where the first read ended - without an explicit seek
